@@ -79,7 +79,11 @@ def _events(args):
                     want = str(getattr(obj, nm))  # read before the export
                 if rnd.random() < 0.25:
                     E.warm(obj)  # an interval that was already asked everything else
-                o = E.outcome(lambda: read_bed12(str(obj.to_bed12(name=nm, chromosome_relative_coordinates=w is None))))
+                # (chromosome coordinates are the documented default: half of those calls do not name the flag)
+                if w is None and rnd.random() < 0.5:
+                    o = E.outcome(lambda: read_bed12(str(obj.to_bed12(name=nm))))
+                else:
+                    o = E.outcome(lambda: read_bed12(str(obj.to_bed12(name=nm, chromosome_relative_coordinates=w is None))))
                 ev.append(["bed", [blocks, st], [cds, st] if (cds and kind == "tx") else [[], "e"], w[0] if w else 0,
                            w is not None, want, o, w[1] if minus else -1])
                 if rnd.random() < 0.5:
